@@ -12,6 +12,22 @@ use crate::{
     runtime::AsyncRuntime,
 };
 
+thread_local! {
+    static PROPAGATION_ROUNDS: std::cell::Cell<u64> = const { std::cell::Cell::new(0) };
+}
+
+/// Number of unit propagation rounds that any solver started on the current
+/// thread so far. An external monitor that samples this counter whenever the
+/// dependency provider is called can tell where in the sequence of provider
+/// calls a propagation round began.
+pub fn verif_propagation_rounds() -> u64 {
+    PROPAGATION_ROUNDS.with(|c| c.get())
+}
+
+pub(crate) fn note_propagation_round() {
+    PROPAGATION_ROUNDS.with(|c| c.set(c.get() + 1));
+}
+
 /// What a variable of the SAT problem stands for.
 #[derive(Clone, Copy, Debug, PartialEq, Eq, Hash, PartialOrd, Ord)]
 pub enum VerifVar {
